@@ -11,6 +11,16 @@
 //!   cload SEL                       collection.select, then sig_from_record(rec).select per surviving row
 //!   agree i SEL                     positions retained at manifest level vs. at signature level
 //! SEL = <ksize|-> <mol|-> <abund|-> <num|-> <scaled|->
+//!
+//! Manifests that did NOT come from Record::from_sig (`case … csv`):
+//!   mcsv <csv hex> <map>            Manifest::from_reader on a CSV document describing sketches of the
+//!                                   case: row p describes the map[p]-th sketch of the case (flat order;
+//!                                   999999 = a row with a molecule name the crate does not know).  The
+//!                                   document is spelled the way other tools write it - molecule type in
+//!                                   any letter case, booleans 0/1/true/False/TRUE, +/0-prefixed integers,
+//!                                   permuted and extra columns, quoted fields.  From then on msel / msel2
+//!                                   / csel / cset / lsel / cload of the case work on THIS manifest
+//!                                   (collections: Collection::new(manifest, MemStorage of the signatures)).
 use sourmash::collection::{Collection, CollectionSet};
 use sourmash::encodings::HashFunctions;
 use sourmash::index::linear::LinearIndex;
@@ -20,7 +30,7 @@ use sourmash::selection::Selection;
 use sourmash::signature::{Signature, SigsTrait};
 use sourmash::sketch::minhash::{max_hash_for_scaled, KmerMinHash, KmerMinHashBTree};
 use sourmash::sketch::Sketch;
-use sourmash::storage::SigStore;
+use sourmash::storage::{InnerStorage, MemStorage, SigStore, Storage};
 use verif_harness::*;
 
 const SEED0: u64 = 1000;
@@ -233,6 +243,144 @@ fn gen_sel(r: &mut Rng, mask: u32, sks: &[(u64, GSk)]) -> (String, Option<u64>) 
     (format!("{} {} {} {} {}", opt(&k), opt(&m), opt(&a), opt(&n), opt(&s)), based.map(|b| b.0))
 }
 
+const HEADER: [&str; 11] = [
+    "internal_location", "md5", "md5short", "ksize", "moltype", "num", "scaled", "n_hashes", "with_abundance",
+    "name", "filename",
+];
+
+fn respell_case(r: &mut Rng, s: &str) -> String {
+    match r.below(4) {
+        0 => s.to_string(),
+        1 => s.to_uppercase(),
+        2 => s.to_lowercase(),
+        _ => s.chars().map(|c| if r.chance(1, 2) { c.to_ascii_uppercase() } else { c.to_ascii_lowercase() }).collect(),
+    }
+}
+
+/// the CSV text of `recs` (fields in HEADER order, canonical spelling) in a dialect the reader accepts
+fn render_csv(r: &mut Rng, recs: &[Vec<String>]) -> Vec<u8> {
+    let term: &[u8] = match r.below(4) {
+        0 => b"\r\n",
+        _ => b"\n",
+    };
+    let quote_all = r.chance(1, 4);
+    let mut order: Vec<usize> = (0..11).collect();
+    if r.chance(1, 2) {
+        for i in (1..11).rev() {
+            let j = r.below(i as u64 + 1) as usize;
+            order.swap(i, j);
+        }
+    }
+    let mut names: Vec<String> = order.iter().map(|&i| HEADER[i].to_string()).collect();
+    let extra_pos = if r.chance(1, 3) { Some(r.below(names.len() as u64 + 1) as usize) } else { None };
+    if let Some(p) = extra_pos {
+        names.insert(p, "seed".into());
+    }
+    let bool_style = r.below(6);
+    let mut out: Vec<u8> = vec![];
+    if r.chance(3, 4) {
+        out.extend(b"# SOURMASH-MANIFEST-VERSION: 1.0\n");
+    }
+    let put = |out: &mut Vec<u8>, f: &[u8], force: bool| {
+        let special = f.iter().any(|b| b",\"\r\n#".contains(b));
+        if special || force {
+            out.push(b'"');
+            for &b in f {
+                if b == b'"' {
+                    out.push(b'"');
+                }
+                out.push(b);
+            }
+            out.push(b'"');
+        } else {
+            out.extend(f);
+        }
+    };
+    for (i, n) in names.iter().enumerate() {
+        if i > 0 {
+            out.push(b',');
+        }
+        put(&mut out, n.as_bytes(), quote_all);
+    }
+    out.extend(term);
+    for rec in recs {
+        let mut fields: Vec<String> = order
+            .iter()
+            .map(|&i| match i {
+                4 => respell_case(r, &rec[4]),
+                8 => {
+                    let t = rec[8] == "1";
+                    match if r.chance(1, 5) { r.below(6) } else { bool_style } {
+                        0 | 1 => rec[8].clone(),
+                        2 => (if t { "true" } else { "false" }).into(),
+                        3 => (if t { "True" } else { "False" }).into(),
+                        4 => (if t { "TRUE" } else { "FALSE" }).into(),
+                        _ => respell_case(r, if t { "true" } else { "false" }),
+                    }
+                }
+                3 | 5 | 6 | 7 if r.chance(1, 6) => format!("{}{}", *r.pick(&["+", "0", "00", "+0"]), rec[i]),
+                _ => rec[i].clone(),
+            })
+            .collect();
+        if let Some(p) = extra_pos {
+            fields.insert(p, (*r.pick(&["42", "", "x y", "DNA"])).to_string());
+        }
+        for (i, f) in fields.iter().enumerate() {
+            if i > 0 {
+                out.push(b',');
+            }
+            put(&mut out, f.as_bytes(), quote_all);
+        }
+        out.extend(term);
+    }
+    out
+}
+
+/// the `mcsv` line of a case: the rows `Record::from_sig` gives for its signatures, written as a
+/// respelled CSV document; sometimes permuted / thinned out / with repeated rows, and (`junk`) with
+/// rows whose molecule name the crate does not know
+fn gen_mcsv(r: &mut Rng, lines: &[String], junk: bool) -> (String, usize) {
+    let mut st = St::default();
+    for l in lines {
+        let ws: Vec<&str> = l.split(' ').collect();
+        step(&mut st, &ws);
+    }
+    let base: Vec<Vec<String>> = all_rows(&st)
+        .iter()
+        .map(|rec| {
+            vec![
+                rec.internal_location().to_string(),
+                rec.md5().clone(),
+                rec.md5()[0..8].to_string(),
+                rec.ksize().to_string(),
+                rec.moltype().to_string(),
+                rec.num().to_string(),
+                rec.scaled().to_string(),
+                rec.n_hashes().to_string(),
+                (rec.with_abundance() as u8).to_string(),
+                rec.name().clone(),
+                rec.filename().clone(),
+            ]
+        })
+        .collect();
+    let n = base.len() as u64;
+    let mut map: Vec<u64> = (0..n).collect();
+    if n > 0 && r.chance(1, 3) {
+        map = (0..r.range(0, n + 2)).map(|_| r.below(n)).collect();
+    }
+    let mut recs: Vec<Vec<String>> = map.iter().map(|&i| base[i as usize].clone()).collect();
+    if junk && n > 0 {
+        for _ in 0..r.range(1, 2) {
+            let mut row = r.pick(&base).clone();
+            row[4] = (*r.pick(&["rna", "", "DNA ", "prot", "dayhof", "hp2", "custom"])).to_string();
+            let at = r.below(recs.len() as u64 + 1) as usize;
+            recs.insert(at, row);
+            map.insert(at, 999_999);
+        }
+    }
+    (format!("mcsv {} {}", hex(&render_csv(r, &recs)), show_nats(map)), recs.len())
+}
+
 fn gen(a: &Args) {
     let mut r = Rng::new(a.seed);
     let mut o = Out::new();
@@ -244,15 +392,31 @@ fn gen(a: &Args) {
         420
     };
     for _ in 0..ncases {
-        let kind = match r.below(12) {
+        let kind = match r.below(15) {
             0..=5 => "free",
             6..=8 => "lookup",
             9 => "homog",
             // several scaled sketches of one signature: where the filter, the downsample pass and
             // the order of the sketches inside the signature meet
-            _ => "ladder",
+            10 | 11 => "ladder",
+            // the manifest is read from a respelled CSV document (see `mcsv`)
+            _ => "csv",
         };
         o.case(kind);
+        let csv = kind == "csv";
+        // flavour of a csv case: signatures as in `lookup` / `homog` (every row can be loaded), or
+        // `free` with rows of unknown molecule names (selection only)
+        let kind = if !csv {
+            kind
+        } else {
+            match r.below(6) {
+                0..=2 => "lookup",
+                3 | 4 => "homog",
+                _ => "free",
+            }
+        };
+        let junk = csv && kind == "free";
+        let mut case_lines: Vec<String> = vec![];
         let nsig = r.range(1, 4);
         let mut all: Vec<(u64, GSk)> = vec![];
         let mut per_sig: Vec<usize> = vec![];
@@ -261,6 +425,7 @@ fn gen(a: &Args) {
             let name = format!("s{}", i);
             let fname = if r.chance(1, 2) { hex(format!("f{}.sig", i).as_bytes()) } else { "~".into() };
             o.op(&format!("sig {} {}", hex(name.as_bytes()), fname));
+            case_lines.push(format!("sig {} {}", hex(name.as_bytes()), fname));
             let mut sks: Vec<GSk> = vec![];
             match kind {
                 "free" => {
@@ -309,9 +474,17 @@ fn gen(a: &Args) {
             }
             for s in &sks {
                 o.op(&s.line());
+                case_lines.push(s.line());
             }
             per_sig.push(sks.len());
             all.extend(sks.into_iter().map(|s| (i, s)));
+        }
+        // rows of the manifest the collection-level requests work on
+        let mut nrows = all.len();
+        if csv {
+            let (line, n) = gen_mcsv(&mut r, &case_lines, junk);
+            o.op(&line);
+            nrows = n;
         }
         // all 2^5 present/absent combinations, values mostly taken from the case
         let mut masks: Vec<u32> = (0..32).collect();
@@ -333,16 +506,20 @@ fn gen(a: &Args) {
                     o.op(&format!("agree {} {}", i, sel));
                 }
             }
-            match r.below(4) {
+            match r.below(if junk { 3 } else { 4 }) {
                 0 => o.op(&format!("msel {}", sel)),
                 1 => o.op(&format!("msel2 {}", sel)),
                 2 => o.op(&format!("csel {}", sel)),
                 _ => o.op(&format!("cset {}", sel)),
             }
+            if csv && !junk && r.chance(1, 2) {
+                o.op(&format!("msel {}", sel));
+            }
             if kind == "lookup" || kind == "homog" {
                 o.op(&format!("cload {}", sel));
             }
-            if kind == "homog" && !all.is_empty() {
+            // (LinearIndex::from_collection takes its template from dataset 0)
+            if kind == "homog" && nrows > 0 {
                 o.op(&format!("lsel {}", sel));
             }
         }
@@ -354,6 +531,8 @@ fn gen(a: &Args) {
 #[derive(Default)]
 struct St {
     sigs: Vec<Signature>,
+    /// the manifest read by `mcsv`, if the case has one
+    csv: Option<Manifest>,
 }
 
 fn build_sketch(ws: &[&str], j: usize) -> Sketch {
@@ -466,7 +645,7 @@ fn rows(orig: &[Record], kept: &[Record]) -> String {
             g,
             r.internal_location(),
             r.ksize(),
-            mol_name(&r.moltype()),
+            raw_mol(r),
             r.num(),
             r.scaled(),
             r.with_abundance() as u8,
@@ -480,12 +659,43 @@ fn rows(orig: &[Record], kept: &[Record]) -> String {
     }
 }
 
+/// the molecule type a row names, without `Record::moltype()`'s panic on an unknown name (the raw
+/// column has no getter; serde is the way to it)
+fn raw_mol(r: &Record) -> &'static str {
+    let v = serde_json::to_value(r).unwrap();
+    match v["moltype"].as_str().unwrap().to_lowercase().as_str() {
+        "dna" => "dna",
+        "protein" => "protein",
+        "dayhoff" => "dayhoff",
+        "hp" => "hp",
+        _ => "custom",
+    }
+}
+
 fn all_rows(st: &St) -> Vec<Record> {
+    if let Some(m) = &st.csv {
+        return m.iter().cloned().collect();
+    }
     st.sigs
         .iter()
         .enumerate()
         .flat_map(|(i, s)| Record::from_sig(s, &i.to_string()))
         .collect()
+}
+
+/// the collection of the case: `Collection::from_sigs`, or the manifest read by `mcsv` over a memory
+/// storage holding the signatures under their positions
+fn collection(st: &St) -> Collection {
+    match &st.csv {
+        None => Collection::from_sigs(st.sigs.clone()).unwrap(),
+        Some(m) => {
+            let storage = MemStorage::new();
+            for (i, sig) in st.sigs.iter().enumerate() {
+                storage.save_sig(&i.to_string(), sig.clone()).unwrap();
+            }
+            Collection::new(m.clone(), InnerStorage::new(storage))
+        }
+    }
 }
 
 fn step(st: &mut St, ws: &[&str]) -> String {
@@ -509,6 +719,33 @@ fn step(st: &mut St, ws: &[&str]) -> String {
             sig.push(sk);
             d
         }
+        "mcsv" => match Manifest::from_reader(&unhex(ws[1])[..]) {
+            Ok(m) => {
+                let v: Vec<String> = m
+                    .iter()
+                    .map(|r| {
+                        let raw = serde_json::to_value(r).unwrap()["moltype"].as_str().unwrap().to_string();
+                        format!(
+                            "{}:{}:{}:{}:{}:{}:{}",
+                            r.internal_location(),
+                            r.ksize(),
+                            hex(raw.as_bytes()),
+                            r.num(),
+                            r.scaled(),
+                            r.with_abundance() as u8,
+                            r.n_hashes()
+                        )
+                    })
+                    .collect();
+                st.csv = Some(m);
+                if v.is_empty() {
+                    "-".into()
+                } else {
+                    v.join(";")
+                }
+            }
+            Err(_) => "err CsvError".into(),
+        },
         "ssel" => {
             let sig = st.sigs[ws[1].parse::<usize>().unwrap()].clone();
             match sig.select(&parse_sel(&ws[2..])) {
@@ -534,14 +771,14 @@ fn step(st: &mut St, ws: &[&str]) -> String {
             rows(&orig, &kept)
         }
         "csel" => {
-            let c = Collection::from_sigs(st.sigs.clone()).unwrap();
+            let c = collection(st);
             let orig: Vec<Record> = c.manifest().iter().cloned().collect();
             let c = c.select(&parse_sel(&ws[1..])).unwrap();
             let kept: Vec<Record> = c.manifest().iter().cloned().collect();
             rows(&orig, &kept)
         }
         "cset" => {
-            let c = Collection::from_sigs(st.sigs.clone()).unwrap();
+            let c = collection(st);
             let c = c.select(&parse_sel(&ws[1..])).unwrap();
             match CollectionSet::try_from(c) {
                 Ok(cs) => format!("ok {}", cs.len()),
@@ -549,7 +786,7 @@ fn step(st: &mut St, ws: &[&str]) -> String {
             }
         }
         "lsel" => {
-            let c = Collection::from_sigs(st.sigs.clone()).unwrap();
+            let c = collection(st);
             let orig: Vec<Record> = c.manifest().iter().cloned().collect();
             let idx = LinearIndex::from_collection(CollectionSet::try_from(c).unwrap());
             match idx.select(&parse_sel(&ws[1..])) {
@@ -562,7 +799,7 @@ fn step(st: &mut St, ws: &[&str]) -> String {
         }
         "cload" => {
             let sel = parse_sel(&ws[1..]);
-            let c = Collection::from_sigs(st.sigs.clone()).unwrap().select(&sel).unwrap();
+            let c = collection(st).select(&sel).unwrap();
             let mut out = vec![];
             for (_, rec) in c.iter() {
                 let loaded = c.sig_from_record(rec).and_then(|s| s.select(&sel));
